@@ -10,3 +10,23 @@
 (assert (forall ((k Str) (p Str)) (! (=> (hasprefix k p) (ble p k)) :pattern ((hasprefix k p)))))
 (assert (forall ((a Str) (b Str) (c Str) (p Str)) (! (=> (and (hasprefix a p) (hasprefix c p) (ble a b) (ble b c)) (hasprefix b p))
    :pattern ((hasprefix a p) (hasprefix c p) (ble a b) (ble b c)))))
+; serialised form of a protobuf message (proto.Marshal), abstract
+(declare-fun pmarshal (Any) Str)
+; keys of the secondary index live in their own key families (first component f, t, i or D)
+(declare-fun idxkey (Str) Bool)
+; validity of elements as decided by the validators (named results of pure functions)
+(declare-fun vertexValid (Int) Bool)
+(declare-fun edgeValid (Int) Bool)
+; @strconst lit_f "f"
+; @strconst lit_t "t"
+; @strconst lit_i "i"
+; @strconst lit_D "D"
+(declare-const lit_f Str)
+(declare-const lit_t Str)
+(declare-const lit_i Str)
+(declare-const lit_D Str)
+; index keys: the first NUL-separated component is one of the index family tags
+(declare-fun firstcomp (Str) Str)
+(assert (forall ((k Str)) (! (= (idxkey k) (or (= (firstcomp k) lit_f) (= (firstcomp k) lit_t) (= (firstcomp k) lit_i) (= (firstcomp k) lit_D))) :pattern ((idxkey k)))))
+; the first component of a join is its first element when that element is NUL-free
+(assert (forall ((h Str) (t SL)) (! (=> (nozero h) (= (firstcomp (bjoin (scons h t) (bset (bzero 1) 0 0))) h)) :pattern ((bjoin (scons h t) (bset (bzero 1) 0 0))))))
